@@ -261,3 +261,32 @@ Print Assumptions c06_conserving_spec.
 Theorem c06_eventually_work_conserving : forall c s, reach c s -> eventually s (c06_conserving c s).
 Proof. exact SrvEventually.c06_eventually_work_conserving. Qed.
 Print Assumptions c06_eventually_work_conserving.
+
+(** * Monitor over the observation sequence of a run (srv/SrvMonitors2.v), extracted and evaluated by the model runner on
+    every harness log, racing ones included.  [env_of tr] = the environment labels of the trace in order,
+    [concat oss] = the observations of the run in order.  [conc_scan K n os] scans the observations with a counter
+    (starting at n): a handler entry OStart needs counter + 1 <= K and adds one, a handler return OGate takes one
+    off; [mon_concurrency K env os = conc_scan K 0 os]; [conc_end n os] is the counter after the scan. *)
+From JV Require SrvMonitors SrvMonitors2.
+Module Monitors.
+Import SrvMonitors SrvMonitors2.
+(* 10. scanning the observations of any run in order, handler entries so far minus handler returns so far never
+       exceed the configured Concurrency (no hypothesis; with cf_K c = 0 the model never enters a handler) *)
+Theorem c06_mon_concurrency_sound : forall c tr s oss, run (init_of c) tr = Some (s, oss) ->
+  mon_concurrency (cf_K c) (env_of tr) (concat oss) = true.
+Proof. exact SrvMonitors2.mon_concurrency_sound. Qed.
+Print Assumptions c06_mon_concurrency_sound.
+
+(* the same, spelled out for every prefix of the observation sequence *)
+Theorem c06_concurrency_every_prefix : forall c tr s oss pre post, run (init_of c) tr = Some (s, oss) ->
+  concat oss = pre ++ post -> conc_end 0 pre <= cf_K c.
+Proof. exact SrvMonitors2.concurrency_every_prefix. Qed.
+Print Assumptions c06_concurrency_every_prefix.
+
+(* per window: the scan started with the number of executing handlers of the state before succeeds and ends with the
+   number of executing handlers of the state after *)
+Theorem c06_window_concurrency : forall c s l s' os, reachf c s -> step s l = Some (s', os) ->
+  conc_scan (cf_K c) (executing s) os = true /\ conc_end (executing s) os = executing s'.
+Proof. exact SrvMonitors2.window_conc. Qed.
+Print Assumptions c06_window_concurrency.
+End Monitors.
